@@ -52,6 +52,23 @@ type obs struct {
 	release                                  chan struct{}
 	stalled                                  []string
 	stalledClosed                            bool
+	// the remaining constructors (Clone, CloneWithFilter + monitor, SubscribeForFilter), by part name
+	extra      map[string][]string
+	extraLists map[string]string
+}
+
+func (o *obs) add(key, s string) {
+	if o.extra == nil {
+		o.extra = map[string][]string{}
+	}
+	o.extra[key] = append(o.extra[key], s)
+}
+
+func (o *obs) setList(key, list string, ready bool) {
+	if o.extraLists == nil {
+		o.extraLists = map[string]string{}
+	}
+	o.extraLists[key] = fmt.Sprintf("%s ready=%v", list, ready)
 }
 
 func reuseUntyped(base kcache.Controller, o *obs) {
@@ -155,6 +172,56 @@ func runUntyped(base kcache.Controller, o *obs) {
 	} else {
 		o.closers = append(o.closers, m.Close)
 		o.dones = append(o.dones, m.Done)
+	}
+	// the remaining constructors, as in the typed tree
+	stream := func(key string, ch <-chan kcache.Event) {
+		go func() {
+			for e := range ch {
+				o.add(key, render(e))
+			}
+		}()
+	}
+	if cl, err := base.Clone(); err != nil {
+		o.errs = append(o.errs, "Clone:"+err.Error())
+	} else {
+		if s, err := cl.Subscribe(); err == nil {
+			stream("clone>sub", s.Events())
+		}
+		o.readers = append(o.readers, func() {
+			l, _ := cl.Cache().List()
+			o.setList("clone", hx.ListString(l), hx.IsClosed(cl.Ready()))
+		})
+	}
+	if fc2, err := base.CloneWithFilter(hx.MkFilter(2)); err != nil {
+		o.errs = append(o.errs, "CloneWithFilter:"+err.Error())
+	} else {
+		if s, err := fc2.Subscribe(); err == nil {
+			stream("fclone>sub", s.Events())
+		}
+		hm := kcache.BuildHandler().
+			OnInitialize(func(l []metav1.Object) { o.add("fclone.mon", "init:"+hx.ListString(l)) }).
+			OnCreate(func(r metav1.Object) { o.add("fclone.mon", "create:"+hx.ObjString(r)) }).
+			OnUpdate(func(r metav1.Object) { o.add("fclone.mon", "update:"+hx.ObjString(r)) }).
+			OnDelete(func(r metav1.Object) { o.add("fclone.mon", "delete:"+hx.ObjString(r)) }).Create()
+		if _, err := kcache.NewMonitor(fc2, hm); err != nil {
+			o.errs = append(o.errs, "NewMonitor(filter clone):"+err.Error())
+		}
+		o.readers = append(o.readers, func() {
+			l, _ := fc2.Cache().List()
+			o.setList("fclone", hx.ListString(l), hx.IsClosed(fc2.Ready()))
+		})
+	}
+	if ds, err := base.SubscribeForFilter(); err != nil {
+		o.errs = append(o.errs, "SubscribeForFilter:"+err.Error())
+	} else {
+		stream("dsub", ds.Events())
+		if err := ds.Refilter(hx.MkFilter(2)); err != nil {
+			o.errs = append(o.errs, "Refilter(dsub):"+err.Error())
+		}
+		o.readers = append(o.readers, func() {
+			l, _ := ds.Cache().List()
+			o.setList("dsub", hx.ListString(l), hx.IsClosed(ds.Ready()))
+		})
 	}
 }
 
@@ -369,6 +436,28 @@ func (in *inst) check(r *vs.Result) []string {
 	if t.subList != restrictList(u.subList) || t.fsubList != restrictList(u.fsubList) || t.cloneList != restrictList(u.cloneList) {
 		msgs = append(msgs, fmt.Sprintf("typed cache content differs | %s: typed %s/%s/%s, untyped %s/%s/%s", n, t.subList, t.fsubList, t.cloneList, u.subList, u.fsubList, u.cloneList))
 	}
+	for _, key := range []string{"clone>sub", "fclone>sub", "dsub"} {
+		cmp(key+" events", t.extra[key], u.extra[key])
+	}
+	{
+		tm, um := append([]string{}, t.extra["fclone.mon"]...), append([]string{}, u.extra["fclone.mon"]...)
+		if len(tm) > 0 && len(um) > 0 && strings.HasPrefix(tm[0], "init:") && strings.HasPrefix(um[0], "init:") {
+			if strings.TrimPrefix(tm[0], "init:") != restrictList(strings.TrimPrefix(um[0], "init:")) {
+				msgs = append(msgs, fmt.Sprintf("typed OnInitialize differs | %s (monitor on a filter clone): typed %s, untyped %s", n, tm[0], um[0]))
+			}
+			tm, um = tm[1:], um[1:]
+		} else if len(tm) > 0 || len(um) > 0 {
+			msgs = append(msgs, fmt.Sprintf("typed OnInitialize differs | %s (monitor on a filter clone): typed calls %v, untyped calls %v", n, tm, um))
+		}
+		cmp("callbacks of a monitor on a filter clone", tm, um)
+	}
+	for _, key := range []string{"clone", "fclone", "dsub"} {
+		tl, ul := t.extraLists[key], u.extraLists[key]
+		ui := strings.LastIndex(ul, " ready=")
+		if ui < 0 || tl != restrictList(ul[:ui])+ul[ui:] {
+			msgs = append(msgs, fmt.Sprintf("typed cache content differs | %s: %s: typed %s, untyped %s", n, key, tl, ul))
+		}
+	}
 	if t.getForeign != "<nil>" && !strings.HasPrefix(t.getForeign, "error:") {
 		msgs = append(msgs, fmt.Sprintf("typed Get returns a foreign object | %s: %s", n, t.getForeign))
 	}
@@ -392,7 +481,7 @@ func Property() runner.Property {
 	return runner.Property{
 		ID:    "C20",
 		Level: "model_checking",
-		Rule:  "behaviour: for each of the 12 typed packages the tree {Subscribe, SubscribeWithFilter, CloneForFilter+Refilter+Subscribe, NewMonitor} runs through the real typed wrapper over a publisher-level base and, side by side, on the untyped core over an identical base; the history contains objects of a foreign type (in the first list and as an event); schedules within d deviations of the default (d=1 quick, 2 thorough); the same tree over a base that holds nothing of the type when it becomes ready; plus, per package, a subscription whose consumer is stalled through 3 x buffer events (buffer modelled as 2), then drains and closes; oracle: typed event streams, monitor callbacks, cache lists, readiness and Done() equal the untyped ones restricted to the type, foreign objects are skipped, nothing panics. source level (sequential_part): the 12 typed generated.go and 8 generated joins equal their templates instantiated with the Makefile's parameters (structural comparison of every top-level declaration), and the 12 typed clients issue GET on the API path of their own resource and namespace for List and Watch (168 requests against a recording transport: list, watch, both repeated, watch called without the Watch flag, and both with label and field selectors)",
+		Rule:  "behaviour: for each of the 12 typed packages the tree {Subscribe, SubscribeWithFilter, CloneForFilter+Refilter+Subscribe, NewMonitor, Clone+Subscribe, CloneWithFilter+Subscribe+NewMonitor on it, SubscribeForFilter+Refilter} runs through the real typed wrapper over a publisher-level base and, side by side, on the untyped core over an identical base; the history contains objects of a foreign type (in the first list and as an event); schedules within d deviations of the default (d=1 quick, 2 thorough); the same tree over a base that holds nothing of the type when it becomes ready; plus, per package, a subscription whose consumer is stalled through 3 x buffer events (buffer modelled as 2), then drains and closes; oracle: typed event streams, monitor callbacks, cache lists, readiness and Done() equal the untyped ones restricted to the type, foreign objects are skipped, nothing panics. source level (sequential_part): the 12 typed generated.go and 8 generated joins equal their templates instantiated with the Makefile's parameters (structural comparison of every top-level declaration), and the 12 typed clients issue GET on the API path of their own resource and namespace for List and Watch (168 requests against a recording transport: list, watch, both repeated, watch called without the Watch flag, and both with label and field selectors)",
 		Assumptions: []string{
 			"publisher-level bases; deviation-bounded schedules",
 			"template equality is an exhaustive structural equality over 20 instances, not a behavioural exploration",
